@@ -125,6 +125,6 @@ def distribution(recs):
 
 MANIFEST = {
  "engine": "lean-proof + scripted schedules (hooks) + stress",
- "text": "Interleaving model of the trigger pool at the granularity of single atomic and lock operations (ticker, any number of workers by count abstraction, stopper; mutex, condition variable with sleep/woken sets): for every schedule, tick sequence and stop point the conservation law requested = started + dropped + refused-by-limit + discarded-by-limit + pending + in-transit holds (C02_conservation; inductive invariant, all 25 event kinds by omega), at termination nothing is pending or in transit (C02_final), dropped grows only by the positive value a superseding tick's or the shutdown's swap returned and never once the limit was seen reached (C02_drop_only_if_pending, C02_limit_silent, C02_limit_read_before_swap), plus the counter law (C02_counter_law). The pinned tree's two violations are kernel-checked schedules (legacy_tick_after_stop, legacy_limit_leftovers_dropped) replayed on the real pool through the hooks.",
+ "text": "Interleaving model of the trigger pool at the granularity of single atomic and lock operations (ticker, any number of workers by count abstraction, stopper; mutex, condition variable with sleep/woken sets): for every schedule, tick sequence and stop point the conservation law requested = started + dropped + refused-by-limit + discarded-by-limit + pending + in-transit holds (C02_conservation; inductive invariant, all 25 event kinds by omega), at termination nothing is pending or in transit (C02_final), dropped grows only by the positive value a superseding tick's or the shutdown's swap returned and never once the limit was seen reached (C02_drop_only_if_pending, C02_limit_silent, C02_limit_read_before_swap), plus the counter law (C02_counter_law). The pinned tree's two violations are kernel-checked schedules (legacy_tick_after_stop, legacy_limit_leftovers_dropped) replayed on the real pool through the hooks. Regenerated: sendJobsForExecution (pool_sendJobs_refines: swap, broadcast under the lock; the positive leftover reported dropped once per request unless the limit was reached), Trigger, waitForNewJobs and one whole worker goroutine (pool_run_refines, by induction over its rounds).",
  "note": "sync.Mutex/sync.Cond/atomics semantics assumed. The script tie executes each script on the proven model itself (settling scheduler) and compares started/dropped/stuck with the real pool; which worker wakes first is canonicalised away.",
- "technique": "Lean 4 inductive invariant over an interleaving semantics (count abstraction, omega over enum codes) + scripted-schedule correspondence through verif hooks"}
+ "technique": "Lean 4 inductive invariant over an interleaving semantics (count abstraction, omega over enum codes) + scripted-schedule correspondence through verif hooks; refinement of the regenerated tick and worker loop (MiniGo)"}
